@@ -664,7 +664,9 @@ func grpcErrorFromTrailer(bufferPool *bufferPool, protobuf Codec, trailer http.H
 			retErr.details = append(retErr.details, d)
 		}
 		// Prefer the Protobuf-encoded data to the headers (grpc-go does this too).
-		retErr.code = Code(status.Code)
+		if status.Code != 0 {
+			retErr.code = Code(status.Code)
+		}
 		retErr.err = errors.New(status.Message)
 	}
 
